@@ -375,7 +375,7 @@ pub fn decode_dir(data: &[u8]) -> DirCase {
                     3 => Item::Deleted { name, rest: [d.u8(); 20] },
                     4 | 5 => Item::LfnGood { units: units(d), name, size: d.u8() as u32, seed: 1 },
                     6 | 7 => {
-                        let kind = d.pick(&[Broken::WrongCsum, Broken::Gap, Broken::Dup, Broken::MissingFirst, Broken::MissingLast, Broken::Reordered, Broken::DeletedBetween, Broken::MixedCsum, Broken::TwentyFragments]);
+                        let kind = d.pick(&[Broken::WrongCsum, Broken::Gap, Broken::Dup, Broken::MissingFirst, Broken::MissingLast, Broken::Reordered, Broken::DeletedBetween, Broken::MixedCsum, Broken::TwentyFragments, Broken::HighOrdinal]);
                         Item::LfnBroken { kind, units: units(d), name }
                     }
                     8 => Item::CsumTwin { name },
